@@ -36,6 +36,16 @@ type c14Prog struct {
 	Threads [][]xop  `json:"threads"`
 	Choices []int    `json:"choices"`
 	Repeat  int      `json:"repeat"`
+	Deny    []int    `json:"deny,omitempty"` // logs whose access controller refuses everything during the concurrent phase: merges into them are refused (or find nothing to merge), appends fail
+}
+
+func (p c14Prog) denies(i int) bool {
+	for _, d := range p.Deny {
+		if d == i {
+			return true
+		}
+	}
+	return false
 }
 
 func genC14(t *rapid.T) c14Prog {
@@ -74,6 +84,15 @@ func genC14(t *rapid.T) c14Prog {
 	}
 	p.Choices = rapid.SliceOfN(rapid.IntRange(0, 63), 8, 64).Draw(t, "choices")
 	p.Repeat = 3
+	// one program in six: some or all of the logs refuse what they are offered (the error paths of merge and append
+	// run under the same locks)
+	if rapid.IntRange(0, 5).Draw(t, "withRefusals") == 4 {
+		for i := 0; i < n; i++ {
+			if rapid.IntRange(0, 2).Draw(t, "denies") > 0 {
+				p.Deny = append(p.Deny, i)
+			}
+		}
+	}
 	// now and then the logs are replicas of one long history (more than a thousand entries each, different lengths)
 	if rapid.IntRange(0, 29).Draw(t, "large") == 19 {
 		for i := 0; i < n; i++ {
@@ -170,6 +189,12 @@ func runMultiLogImpl(tb ev.TB, p c14Prog, prop string) ev.Result {
 		}
 	})
 	n := len(w.Reps)
+	if prop != "C14" && len(p.Deny) > 0 {
+		return ev.Result{Classes: []string{"not-this-property(refusing logs)"}}
+	}
+	for i, r := range w.Reps {
+		r.Deny(p.denies(i))
+	}
 	windowed := hasBounded(p)
 	logs := make([]*ipfslog.IPFSLog, n)
 	index := map[*ipfslog.IPFSLog]int{}
@@ -226,7 +251,11 @@ func runMultiLogImpl(tb ev.TB, p c14Prog, prop string) ev.Result {
 					crossOverlap = true
 				}
 			}
-			if jc.active && jc.dst == li && jc.before != nil && jc.size < 0 {
+			if jc.active && jc.dst == li && jc.before != nil && p.denies(li) && jc.size < 0 {
+				if !st.entries.Equal(jc.before.entries) || !st.heads.Equal(jc.before.heads) {
+					failures = append(failures, fmt.Sprintf("T%d: L%d refuses everything, yet L%d.Join(L%d) changed it (%d -> %d entries)", e.Thread, li, jc.dst, jc.src, len(jc.before.entries), len(st.entries)))
+				}
+			} else if jc.active && jc.dst == li && jc.before != nil && jc.size < 0 {
 				// result must be before ∪ S for some state S the source really had between call and return. When
 				// the program makes size-bounded merges logs are windows of their history and the comparison follows
 				// the merge's own candidate rule: everything reachable from S's heads through entries the
@@ -300,9 +329,11 @@ func runMultiLogImpl(tb ev.TB, p c14Prog, prop string) ev.Result {
 				case "append":
 					e, err := d.Append(ctx, []byte(fmt.Sprintf("x%d-%d", ti, oi)), nil)
 					if err != nil {
-						mu.Lock()
-						errs = append(errs, fmt.Sprintf("T%d append failed: %v", ti, err))
-						mu.Unlock()
+						if !p.denies(op.Dst % n) {
+							mu.Lock()
+							errs = append(errs, fmt.Sprintf("T%d append failed: %v", ti, err))
+							mu.Unlock()
+						}
 						continue
 					}
 					w.Reg.Record(e)
@@ -314,7 +345,7 @@ func runMultiLogImpl(tb ev.TB, p c14Prog, prop string) ev.Result {
 					cur[ti] = joinCtx{active: true, dst: op.Dst % n, src: si, size: sizeOf(op), callStep: len(sch.Trace)}
 					_, err := d.Join(logs[si], sizeOf(op))
 					cur[ti].active = false
-					if err != nil {
+					if err != nil && !p.denies(op.Dst%n) {
 						mu.Lock()
 						errs = append(errs, fmt.Sprintf("T%d join failed: %v", ti, err))
 						mu.Unlock()
@@ -434,6 +465,9 @@ func runMultiLogImpl(tb ev.TB, p c14Prog, prop string) ev.Result {
 	if windowed {
 		cl = append(cl, "with-size-bounded-merges")
 	}
+	if len(p.Deny) > 0 {
+		cl = append(cl, "with-refusing-logs")
+	}
 	if srcMutatedDuringJoin {
 		cl = append(cl, "source-mutated-during-merge")
 	}
@@ -465,7 +499,7 @@ func TestC03Multi(t *testing.T) {
 
 func TestC14Coop(t *testing.T) {
 	c := ev.Get("C14")
-	c.Rule = "generated concurrent programs over 2-3 logs built by a generated setup history (in a few percent of the cases each log additionally starts as a replica of one long history of 1030-1290 entries): 2-4 logical threads each run 1-3 operations from {X.Join(Y), X.Append} with generated X, Y (one program in eight also makes size-bounded merges X.Join(Y, n): for those programs: deadlock freedom, no panic, 'every head is an entry', and for their unbounded merges the union clause in the form of the merge's own candidate rule, since logs are windows then) (so merges from a log that is concurrently appended to, merged into, or merging back). Engine E1 (cooperative scheduler): every lock request/release of every log and the points join.locked / join.afterValidate / join.beforeHeads are scheduling points, the interleaving is a generated choice list, deadlock is detected exactly. At every write-unlock of a log its state (read without locks) must have heads ⊆ entries, be causally closed and have heads == unreferenced; for a Join the result must equal (destination at lock time) ∪ S for some state S the source log had between the call and the return (states recorded at every write-unlock). Engine E2 (TestC14Free, -race): the same programs on free goroutines with a 20 s watchdog whose expiry is a violation only if the goroutine dump shows the log locks held. Non-trivial = the source was mutated by another thread while a merge from it was in flight, or two merges in opposite directions overlapped; distinct = distinct program."
+	c.Rule = "generated concurrent programs over 2-3 logs built by a generated setup history (in a few percent of the cases each log additionally starts as a replica of one long history of 1030-1290 entries): 2-4 logical threads each run 1-3 operations from {X.Join(Y), X.Append} with generated X, Y (one program in eight also makes size-bounded merges X.Join(Y, n): for those programs: deadlock freedom, no panic, 'every head is an entry', and for their unbounded merges the union clause in the form of the merge's own candidate rule, since logs are windows then); one program in six lets some or all of the logs refuse whatever they are offered (denying access controller): merges into them fail or find nothing, appends fail, and a refused unbounded merge must leave entries and heads as they were - the error paths run under the same locks (so merges from a log that is concurrently appended to, merged into, or merging back). Engine E1 (cooperative scheduler): every lock request/release of every log and the points join.locked / join.afterValidate / join.beforeHeads are scheduling points, the interleaving is a generated choice list, deadlock is detected exactly. At every write-unlock of a log its state (read without locks) must have heads ⊆ entries, be causally closed and have heads == unreferenced; for a Join the result must equal (destination at lock time) ∪ S for some state S the source log had between the call and the return (states recorded at every write-unlock). Engine E2 (TestC14Free, -race): the same programs on free goroutines with a 20 s watchdog whose expiry is a violation only if the goroutine dump shows the log locks held. Non-trivial = the source was mutated by another thread while a merge from it was in flight, or two merges in opposite directions overlapped; distinct = distinct program."
 	c.Assumptions = []string{"interleavings are explored at hook granularity", "E2's deadlock verdict needs the goroutine dump to show goroutines parked on the logs' RWMutex"}
 	ev.Check(t, "C14", genC14, runC14Coop)
 }
@@ -484,6 +518,9 @@ func runC14Free(tb ev.TB, p c14Prog) ev.Result {
 	for r := 0; r < rep; r++ {
 		w := sim.Run(tb, &p.Setup, nil)
 		n := len(w.Reps)
+		for i, r := range w.Reps {
+			r.Deny(p.denies(i))
+		}
 		windowed := hasBounded(p)
 		var wg sync.WaitGroup
 		start := make(chan struct{})
@@ -505,7 +542,7 @@ func runC14Free(tb ev.TB, p c14Prog) ev.Result {
 						atomic.AddInt32(&running, -1)
 						if err == nil {
 							w.Reg.Record(e)
-						} else {
+						} else if !p.denies(op.Dst % n) {
 							mu.Lock()
 							errs = append(errs, err.Error())
 							mu.Unlock()
@@ -518,7 +555,7 @@ func runC14Free(tb ev.TB, p c14Prog) ev.Result {
 					}
 					_, err := d.Join(w.Reps[si].Log, sizeOf(op))
 					atomic.AddInt32(&running, -1)
-					if err != nil {
+					if err != nil && !p.denies(op.Dst%n) {
 						mu.Lock()
 						errs = append(errs, fmt.Sprintf("join failed: %v", err))
 						mu.Unlock()
